@@ -1060,26 +1060,41 @@ Proof.
   apply wp_ret, HQ, Hlog, H4.
 Qed.
 
-Lemma wp_concat_input : forall g (Q : unit -> lst -> Prop) l,
-  LC l -> (forall l', LCO g l' -> Q tt l') -> wp (concat_input fixed g) Q EA l.
+Lemma wp_chosen_grid : forall go (Q : option grid -> lst -> Prop) (E : exn -> lst -> Prop) l,
+  (forall og, (og = go \/ (go = None /\ (og = None \/ exists g, og = Some g /\ sl l S_omega = Some (TF g)))) -> Q og l) ->
+  wp (chosen_grid go) Q E l.
 Proof.
-  intros g Q l H HQ. unfold concat_input.
+  intros go Q E l HQ. unfold chosen_grid. destruct go as [g | ]; [apply wp_ret, HQ; left; reflexivity | ].
+  wnext. apply wp_ret. apply HQ. right. split; [reflexivity | ].
+  destruct (sl l S_omega) as [[ | g | | | ] | ]; auto. right. exists g. auto.
+Qed.
+
+Lemma wp_as_concat_input : forall go last early missing (Q : unit -> lst -> Prop) l,
+  allowed E_value -> LC l -> (forall l', LC l' -> Q tt l') -> wp (as_concat_input fixed go last early missing) Q EA l.
+Proof.
+  intros go last early missing Q l Hv H HQ. unfold as_concat_input.
   apply wp_bind. apply (wp_tau_prop LC); [apply stable_LC | exact H | ]. intros l1 H1. cbv beta.
-  apply wp_bind. apply wp_get_total_phases; [exact H1 | ]. intros r l2 H2 _ _.
-  apply wp_bind. apply (wp_tpl_prop (LCO g)); [apply stable_LCO | exact H2 | ]. intros l3 H3. cbv beta.
-  apply wp_bind. apply wp_get_cm; [eapply LCO_LC, H3 | ]. intros r' l4 H4 _ _.
-  apply (wp_lazy_prop _ (LCO g)); [apply stable_LCO | exact H4 | exact HQ].
+  destruct early; [apply wp_ret, HQ, H1 | ].
+  apply wp_bind. apply wp_chosen_grid. intros og _.
+  destruct og as [g | ]; [ | apply wp_raise; split; assumption].
+  apply wp_seq with (R := fun _ l' => LC l').
+  - destruct last; [apply wp_ret, H1 | ].
+    apply wp_bind. apply wp_get_total_phases; [exact H1 | ]. intros r l2 H2 _ _.
+    apply (wp_tpl_prop (LCO g)); [apply stable_LCO | exact H2 | intros l3 H3; eapply LCO_LC, H3].
+  - intros _ l2 H2. apply wp_bind. apply wp_get_cm; [exact H2 | ]. intros r l3 H3 _ _.
+    apply wp_seq with (R := fun _ l' => LCO g l').
+    + destruct missing; [ | apply wp_ret, H3].
+      apply wp_bind. apply (wp_lazy_prop _ (LCO g)); [apply stable_LCO | exact H3 | ]. intros l4 H4. cbv beta.
+      apply wp_bind. apply (wp_lazy_prop _ (LCO g)); [apply stable_LCO | exact H4 | ]. intros l5 H5. cbv beta.
+      apply wp_bind. apply (wp_lazy_prop _ (LCO g)); [apply stable_LCO | exact H5 | ]. intros l6 H6. cbv beta.
+      apply (wp_t_prop (LCO g)); [apply stable_LCO | exact H6 | auto].
+    + intros _ l4 H4. apply (wp_lazy_prop _ (LCO g)); [apply stable_LCO | exact H4 | ]. intros l5 H5. eapply HQ, LCO_LC, H5.
 Qed.
-Lemma wp_extend_input : forall g (Q : unit -> lst -> Prop) l,
-  LC l -> (forall l', LCO g l' -> Q tt l') -> wp (extend_input fixed g) Q EA l.
+
+Lemma wp_as_periodic_input : forall (Q : unit -> lst -> Prop) l,
+  LC l -> (forall l', LC l' -> Q tt l') -> wp (as_periodic_input fixed) Q EA l.
 Proof.
-  intros g Q l H HQ. unfold extend_input.
-  apply wp_bind. apply wp_get_cm; [exact H | ]. intros r' l4 H4 _ _. apply wp_ret, HQ, H4.
-Qed.
-Lemma wp_periodic_input : forall (Q : unit -> lst -> Prop) l,
-  LC l -> (forall l', LC l' -> Q tt l') -> wp (periodic_input fixed) Q EA l.
-Proof.
-  intros Q l H HQ. unfold periodic_input.
+  intros Q l H HQ. unfold as_periodic_input.
   apply wp_bind. apply (wp_tau_prop LC); [apply stable_LC | exact H | ]. intros l1 H1. cbv beta.
   wnext. destruct (sl l1 S_control_matrix); [ | apply wp_ret, HQ, H1].
   wnext. destruct (sl l1 S_omega) as [[ | g | | | ] | ]; try (apply wp_ret, HQ, H1).
@@ -1087,6 +1102,45 @@ Proof.
   apply wp_bind. apply wp_get_cm; [eapply LCO_LC, H2 | ]. intros r' l3 H3 _ _.
   apply wp_bind. apply (wp_tpl_prop (LCO g)); [apply stable_LCO | exact H3 | ]. intros l4 H4. cbv beta.
   apply (wp_lazy_prop _ (LCO g)); [apply stable_LCO | exact H4 | ]. intros l5 H5. eapply HQ, LCO_LC, H5.
+Qed.
+
+Lemma wp_as_extend_input : forall go diag allc (Q : unit -> lst -> Prop) l,
+  LC l -> (forall l', LC l' -> Q tt l') -> wp (as_extend_input fixed go diag allc) Q EA l.
+Proof.
+  intros go diag allc Q l H HQ. unfold as_extend_input.
+  apply wp_seq with (R := fun _ l' => LC l').
+  - destruct diag; [ | apply wp_ret, H].
+    apply wp_bind. apply (wp_lazy_prop _ LC); [apply stable_LC | exact H | ]. intros l1 H1. cbv beta.
+    apply wp_bind. apply (wp_lazy_prop _ LC); [apply stable_LC | exact H1 | ]. intros l2 H2. cbv beta.
+    apply (wp_lazy_prop _ LC); [apply stable_LC | exact H2 | auto].
+  - intros _ l1 H1. destruct go as [g | ].
+    + apply wp_bind. apply wp_get_cm; [exact H1 | ]. intros r l2 H2 _ _. apply wp_ret. eapply HQ, LCO_LC, H2.
+    + wnext. wnext. destruct (sl l1 S_omega) as [[ | g | | | ] | ]; try (apply wp_ret, HQ, H1).
+      destruct (_ && allc); [ | apply wp_ret, HQ, H1].
+      apply wp_bind. apply wp_get_cm; [exact H1 | ]. intros r l2 H2 _ _. apply wp_ret. eapply HQ, LCO_LC, H2.
+Qed.
+
+Lemma wp_as_remap_input : forall pauli (Q : unit -> lst -> Prop) l,
+  LC l -> (forall l', LC l' -> Q tt l') -> wp (as_remap_input fixed pauli) Q EA l.
+Proof.
+  intros pauli Q l H HQ. unfold as_remap_input.
+  wnext. destruct (sl l S_omega) as [[ | g | | | ] | ]; try (apply wp_ret, HQ, H).
+  wnext. apply wp_seq with (R := fun _ l' => LC l').
+  - destruct (sl l S_total_phases); [ | apply wp_ret, H].
+    apply wp_bind. apply wp_get_total_phases; [exact H | ]. intros r l2 H2 _ _. apply wp_ret. eapply LCO_LC, H2.
+  - intros _ l1 H1. wnext. apply wp_seq with (R := fun _ l' => LC l').
+    + destruct (sl l1 S_filter_function); [ | apply wp_ret, H1].
+      apply wp_bind. apply wp_get_ff; [exact H1 | ]. intros r l2 H2 _ _. apply wp_ret. eapply LCO_LC, H2.
+    + intros _ l2 H2. wnext. destruct (pauli && _); [ | apply wp_ret, HQ, H2].
+      apply wp_bind. apply wp_get_cm; [exact H2 | ]. intros r l3 H3 _ _. apply wp_ret. eapply HQ, LCO_LC, H3.
+Qed.
+
+(* user data of the wrong shape: rejected after the frequency guard *)
+Lemma wp_shape_fail : forall g (Q : unit -> lst -> Prop) l,
+  allowed E_value -> LC l -> wp (shape_fail fixed g) Q EA l.
+Proof.
+  intros g Q l Hv H. unfold shape_fail. apply wp_bind. apply wp_guard_LC; [exact H | ]. intros l1 H1. cbv beta.
+  apply wp_raise. split; [eapply LCG_LC, H1 | exact Hv].
 Qed.
 End Specs.
 
@@ -1107,20 +1161,34 @@ Proof.
   apply wp_conseq with (Q := fun _ l' => LC l') (E := EA A); [ | auto | intros e l' [H' _]; exact H'].
   destruct o; cbn [run_op].
   - apply wp_withret, wp_get_cm; [exact HA | exact H | intros r l' H' _ _; eapply LCO_LC, H'].
-  - apply wp_noret, wp_cache_cm; [exact HA | | exact H | intros l' H'; eapply LCO_LC, H'].
-    destruct user as [[c b] | ]; [right; exists b | left; reflexivity]. simpl in Hok. subst c. reflexivity.
+  - destruct user as [[[ | | ] b] | ]; try discriminate Hok.
+    + apply wp_noret, wp_cache_cm; [exact HA | right; exists b; reflexivity | exact H | intros l' H'; eapply LCO_LC, H'].
+    + apply wp_noret, wp_shape_fail; [exact I | exact H].
+    + apply wp_noret, wp_cache_cm; [exact HA | left; reflexivity | exact H | intros l' H'; eapply LCO_LC, H'].
   - apply wp_withret, wp_get_pccm; [exact I | exact H | intros r l' g H' _ _ _; eapply LCO_LC, H'].
   - apply wp_withret, wp_get_ff; [exact HA | exact H | intros r l' H' _ _; eapply LCO_LC, H'].
-  - apply wp_noret, wp_cache_ff; [exact HA | | | exact H | intros l' H' _; eapply LCO_LC, H'].
-    + destruct cm as [[c b] | ]; [right; exists b | left; reflexivity]. simpl in Hok.
-      apply andb_true_iff in Hok. destruct Hok as [-> _]. reflexivity.
-    + destruct ff as [c | ]; [right | left; reflexivity]. simpl in Hok.
-      apply andb_true_iff in Hok. destruct Hok as [_ ->]. reflexivity.
+  - simpl in Hok. apply andb_true_iff in Hok. destruct Hok as [Hcm Hff].
+    assert (Hgo : forall cmu ffu, (cmu = None \/ exists b, cmu = Some (TF g, b)) -> (ffu = None \/ ffu = Some (TF g)) ->
+              wp (noret (cache_ff fixed g cmu ffu w o ci)) (fun _ l' => LC l') (EA A) l).
+    { intros cmu ffu H1 H2. apply wp_noret, wp_cache_ff; [exact HA | exact H1 | exact H2 | exact H | intros l' H' _; eapply LCO_LC, H']. }
+    assert (Hsf : wp (noret (shape_fail fixed g)) (fun _ l' => LC l') (EA A) l)
+      by (apply wp_noret, wp_shape_fail; [exact I | exact H]).
+    destruct ff as [[ | | ] | ]; try discriminate Hff; cbn [is_shape orb option_map user_tag].
+    + apply Hgo; [left; reflexivity | right; reflexivity].
+    + exact Hsf.
+    + destruct o.
+      * destruct cm as [[[ | | ] b] | ]; try discriminate Hcm; cbn [is_shape orb option_map user_tag fst snd].
+        -- apply Hgo; [right; exists b; reflexivity | left; reflexivity].
+        -- exact Hsf.
+        -- apply Hgo; [left; reflexivity | left; reflexivity].
+      * cbn [is_shape orb option_map]. apply Hgo; [left; reflexivity | left; reflexivity].
   - apply wp_withret, wp_get_pcff; [exact HA | exact I | exact H | intros r l' g H' _ _ _; eapply LCO_LC, H'].
   - apply wp_withret, wp_get_deriv; [exact HA | exact H | intros r l' H' _ _; eapply LCO_LC, H'].
   - apply wp_withret, wp_get_total_phases; [exact HA | exact H | intros r l' H' _ _; eapply LCO_LC, H'].
-  - apply wp_noret, wp_cache_total_phases; [exact HA | | exact H | intros l' H' _; eapply LCO_LC, H'].
-    destruct user as [c | ]; [right | left; reflexivity]. simpl in Hok. subst c. reflexivity.
+  - destruct user as [[ | | ] | ]; try discriminate Hok.
+    + apply wp_noret, wp_cache_total_phases; [exact HA | right; reflexivity | exact H | intros l' H' _; eapply LCO_LC, H'].
+    + apply wp_noret, wp_shape_fail; [exact I | exact H].
+    + apply wp_noret, wp_cache_total_phases; [exact HA | left; reflexivity | exact H | intros l' H' _; eapply LCO_LC, H'].
   - apply wp_noret, (wp_diagonalize A HA LC); [apply stable_LC | exact H | auto].
   - destruct (is_lazy s); [ | apply wp_ret, H].
     apply wp_noret, (wp_lazy_prop A HA s LC); [apply stable_LC | exact H | auto].
@@ -1135,10 +1203,10 @@ Proof.
   - apply wp_withret, wp_cumulant; [exact HA | intros _; split; exact I | exact H | intros r l' H' _ _; eapply LCO_LC, H'].
   - apply wp_withret, wp_error_transfer_matrix; [exact HA | exact H | intros r l' H' _ _; eapply LCO_LC, H'].
   - apply wp_withret, wp_infidelity_derivative; [exact HA | exact H | intros r l' H' _ _; eapply LCO_LC, H'].
-  - apply wp_noret, wp_concat_input; [exact HA | exact H | intros l' H'; eapply LCO_LC, H'].
-  - apply wp_noret, wp_extend_input; [exact HA | exact H | intros l' H'; eapply LCO_LC, H'].
-  - apply wp_noret, wp_periodic_input; [exact HA | exact H | auto].
-  - apply wp_ret, H.
+  - apply wp_noret, wp_as_concat_input; [exact HA | exact I | exact H | auto].
+  - apply wp_noret, wp_as_periodic_input; [exact HA | exact H | auto].
+  - apply wp_noret, wp_as_extend_input; [exact HA | exact H | auto].
+  - apply wp_noret, wp_as_remap_input; [exact HA | exact H | auto].
   - apply wp_noret, (wp_propagator_at A HA LC); [apply stable_LC | exact H | auto].
 Qed.
 
@@ -1372,11 +1440,12 @@ Qed.
 Lemma ni_run_op : forall mc o, ni (run_op mc o).
 Proof.
   intros mc o. destruct o; cbn [run_op]; unfold noret, withret, error_transfer_matrix, infidelity_derivative,
-    concat_input, extend_input, periodic_input, propagator_at, cleanup_user;
+    as_concat_input, as_periodic_input, as_extend_input, as_remap_input, chosen_grid, shape_fail, propagator_at, cleanup_user;
   pose proof ni_get_cm; pose proof ni_cache_cm; pose proof ni_get_pccm; pose proof ni_get_ff; pose proof ni_cache_ff;
   pose proof ni_get_pcff; pose proof ni_get_deriv; pose proof ni_get_total_phases; pose proof ni_cache_total_phases;
   pose proof ni_diagonalize; pose proof ni_lazy_prop; pose proof ni_tpl_prop; pose proof ni_t_prop; pose proof ni_tau_prop;
-  pose proof ni_infidelity; pose proof ni_decay_amplitudes; pose proof ni_cumulant; pose proof ni_clear_attrs; ni_auto.
+  pose proof ni_infidelity; pose proof ni_decay_amplitudes; pose proof ni_cumulant; pose proof ni_clear_attrs;
+  pose proof ni_guard; ni_auto.
 Qed.
 
 (* ================================================================== the store *)
@@ -1712,7 +1781,7 @@ Definition result_with (mc : mech) (st : store) (c : gop) := snd (fst (exec mc s
    the control matrix of g1 is served for g2 *)
 Definition no_clear : mech := mkMech false true true true.
 Definition hist_a : list gop :=
-  [Call 0 (GetCM g1 false) never; Call 0 (CacheFF g2 None (Some true) Fidelity First false) never].
+  [Call 0 (GetCM g1 false) never; Call 0 (CacheFF g2 None (Some UOk) Fidelity First false) never].
 Example cache_clear_needed :
   forallb gop_ok hist_a = true /\
   ~ Coherent (run_with no_clear hist_a) /\
@@ -1750,7 +1819,7 @@ Example deriv_order_needed :
 Proof. repeat split; vm_compute; reflexivity. Qed.
 
 (* (d) user data that is not what the caller says breaks the invariant: the hypothesis gop_ok is needed *)
-Definition hist_d : list gop := [Call 0 (CacheCM g1 (Some (false, false)) false) never].
+Definition hist_d : list gop := [Call 0 (CacheCM g1 (Some (UBad, false)) false) never].
 Example correct_user_data_needed :
   forallb gop_ok hist_d = false /\ ~ Coherent (run_with fixed hist_d) /\
   result_with fixed (run_with fixed hist_d) (Call 0 (GetCM g1 false) never) = Ret (Some (TBad 4, Served)).
@@ -1780,7 +1849,7 @@ Proof. split; [reflexivity | split; [apply not_coherent; vm_compute; reflexivity
    a shallow copy, an aborted call, clean-up, a deep copy *)
 Definition hist_e : list gop :=
   [Call 0 (GetFF g1 Generalized First true) never; Copy 0; Call 1 (GetFF g2 Fidelity Second false) (Some 1);
-   Call 0 (CacheCM g3 (Some (true, true)) false) never; DeepCopy 0; Call 2 (Cleanup Greedy) never;
+   Call 0 (CacheCM g3 (Some (UOk, true)) false) never; DeepCopy 0; Call 2 (Cleanup Greedy) never;
    Call 1 (GetDeriv g3) never; Call 0 (GetPCFF Generalized) never].
 Example hypotheses_satisfiable :
   forallb gop_ok hist_e = true /\ nobj (fold_left step hist_e init) = 3 /\
